@@ -333,7 +333,12 @@ pub fn run_decode(ctx: &mut Ctx, v: &J) {
                     m.wire = Some(bytes.clone());
                     let _ = m.step(&json!({"ev": "decode", "api": "slice", "ty": v["ty"], "reg": v["reg"]}));
                     let e = m.step(&json!({"ev": "encode", "api": "vec"}));
-                    if e["kind"] != "harness" && (e["kind"] != "ok" || e["bytes"][0] != *want) {
+                    let same_bytes = e["kind"] == "ok"
+                        && match (bytes_of(want), bytes_of(&e["bytes"][0])) {
+                            (Ok(w), Ok(g)) => struct_equiv(&w, &g),     // maps modulo entry order
+                            _ => false,
+                        };
+                    if e["kind"] != "harness" && !same_bytes {
                         let p = main_prop(v);
                         ctx.mismatch(&p, v, "re-encoding-differs", json!({"obs": e}));
                     }
